@@ -155,6 +155,9 @@ impl Report {
             0
         };
         // skip destructors: trackers started in-process never stop
+        if cfg!(miri) {
+            std::process::exit(code)
+        }
         unsafe { libc::_exit(code) }
     }
 }
